@@ -17,7 +17,7 @@ Init == [i |-> 0, viol |-> {}, prev |-> [peers |-> [p \in MPeers |-> [conn |-> 0
          sent |-> <<>>,       \* requests the node transmitted for senders: [k, a, c, hbh, e2e, t, timeout, done]
          outst |-> [c \in CIds |-> {}]]    \* hop-by-hop ids of node-originated application requests outstanding on c
 
-Step(M, st) ==
+StepN(M, st) ==
   LET M0 == [M EXCEPT !.i = @ + 1]
       now == st.snap.t
       out == st.out
@@ -86,4 +86,5 @@ Step(M, st) ==
                                  \ (IF IsFeed(st) /\ st.act.c = c THEN {st.act.ms[x].hbh : x \in fedAns} ELSE {})]
   IN [M0 EXCEPT !.viol = @ \cup {[sig |-> s, at |-> M0.i] : s \in sigs}, !.sent = sent2, !.outst = outst1,
                 !.prev = [peers |-> [p \in MPeers |-> [conn |-> st.snap.peers[p].conn, st |-> st.snap.peers[p].st]]]]
+Step(M, s0) == StepN(M, Norm(s0))
 =============================================================================
